@@ -11,7 +11,7 @@ m = {
     "setup_cmd": "tools/setup.sh",
     "hooks": {
         "guard": "grmtools_verif",
-        "enable": "RUSTFLAGS='--cfg grmtools_verif' (set by tools/check.py for the properties that need a hook; none do at present)",
+        "enable": "RUSTFLAGS='--cfg grmtools_verif' and CARGO_TARGET_DIR=harness/target/hook (set by tools/check.py for the properties whose CONFIG says hooks: True — C02: trace of pager_stategraph; all other properties are built without the flag)",
         "baseline_off_cmd": BASE,
         "source_commits": HOOK_COMMITS,
         "add_only": True,
@@ -26,7 +26,7 @@ m = {
     ],
     "checks": [],
     "not_applicable": NOT_APPLICABLE,
-    "notes": "Technique: machine-checked proof in Lean 4 over hand-written models, tied to /repo on every run by a correspondence/validation harness (see DESIGN.md). Known findings and fixes: known_findings.json.",
+    "notes": "Technique: machine-checked proof in Lean 4 over hand-written models, tied to /repo on every run by a correspondence/validation harness (see DESIGN.md). Known findings and fixes: known_findings.json. Hook commit 27a1a55 (lrtable/src/lib/pager.rs, mod.rs; only adds code under cfg(grmtools_verif)) is used by C02 alone; a copy is in patches/.",
 }
 for pid in sorted(CHECKS):
     c = CHECKS[pid]
